@@ -499,6 +499,40 @@ func (r *c14run) enums(vs []c14val, thorough bool) {
 	}
 }
 
+// c14foldStrings: letters whose simple case folding is not "lower-case both sides": three-way case
+// orbits (σ ς Σ; k K and the Kelvin sign; s S ſ; µ μ Μ; θ ϑ Θ; ǆ ǅ Ǆ), letters whose lower case is
+// not their fold (İ, ı), multi-letter upper cases that simple folding does NOT equate (ß / SS), and
+// invalid UTF-8. "folds case" is read as Unicode simple case folding (strings.EqualFold), the only
+// reading under which the relation is an equivalence on all of these.
+var c14foldStrings = []string{"οδος", "ΟΔΟΣ", "οδοσ", "s", "S", "ſ", "k", "K", "\u212a", "µm", "μm", "ΜM", "θ", "ϑ", "Θ", "ǆ", "ǅ", "Ǆ",
+	"i", "I", "İ", "ı", "ß", "ss", "SS", "é", "É", "a\xff", "A\xff"}
+
+// enumFold asks EnumCase (both modes) and Enum for every ordered pair of the strings above, as a
+// one-member []interface{} list and as a typed []string with a non-matching member in front.
+func (r *c14run) enumFold() {
+	var vs []c14val
+	for _, x := range c14foldStrings {
+		vs = append(vs, c14const("string "+c14q(x), x))
+	}
+	for di, d := range vs {
+		for mi := range vs {
+			lists := []c14list{c14listOf(vs, mi), c14strs("zz", c14foldStrings[mi])}
+			for _, l := range lists {
+				var kinds [3]string
+				for mode := range c14enumModes {
+					cs := c14enumCase(mode, d, l)
+					kind, o := r.eval(cs)
+					kinds[mode] = kind
+					if kind == "" || (mode > 0 && kinds[mode-1] == kind) {
+						continue
+					}
+					r.enumFail(vs, mode, 5000+di, d, l, cs, kind, o)
+				}
+			}
+		}
+	}
+}
+
 func (r *c14run) enumFail(vs []c14val, mode, di int, d c14val, l c14list, cs c14case, kind string, o c14obs) {
 	m := c14enumModes[mode]
 	modeName := fmt.Sprintf("%s/%v", m.helper, m.cs)
@@ -939,6 +973,7 @@ func c14(c *hx.Ctx) int {
 	r.zeroHelpers()
 	r.formats()
 	r.enums(vs, thorough)
+	r.enumFold()
 	r.uniques(vs, thorough)
 
 	classes := make([]string, 0, len(r.fails))
